@@ -189,5 +189,5 @@ def run(ctx):
                                          'known': ctx.known_buckets} for alg in CFG])
     res.merge(res2)
     res.merge(core.run_shards(shard_ladder, [{'shard': 'ladder:' + alg, 'alg': alg, 'top': ctx.q(130, 300), 'seed': ctx.seed,
-                                              'long': ctx.q([160, 200, 256, 400], [400, 512, 700, 1000, 1500, 2500, 4000])} for alg in CFG]))
+                                              'long': ctx.q([160, 200, 256, 400, 3000], [400, 512, 700, 1000, 1500, 2500, 4000, 6000])} for alg in CFG]))
     return core.finish(ctx, res, LEVEL, RULE, ASSUME, SUBS, extra={'exhaustive': False, 'exhaustive_part': 'all payloads up to the stated length per alphabet'})
